@@ -225,7 +225,7 @@ def run_case(spec):
 
     g = gen.ProgGen(rng, max_depth=rng.choice([2, 3, 4]), max_nodes=rng.choice([8, 20, 40]), value_depth=1,
                     hostile=hostile if use_hostile else None, fail_p=0.4, early_finish_p=0.2, extra_styles=("pre_created", "ctx_finish_inside"),
-                    msg_styles=gen.MSG_STYLES + ["stdlib"])
+                    msg_styles=gen.MSG_STYLES + ["stdlib"], underscore_field_p=0.1)
     prog = g.program()
     st = gen.prog_stats(prog)
 
